@@ -1,12 +1,41 @@
 """C17 - removed markup is removed completely and takes nothing else with it.
 
-Space I over parser event sequences. A case is {"r": removable element, "ctx": context, "seq": [symbols]}:
-the document is  context( V1 <!--X--> <r> seq </r> V2 ) V3  and every sequence of length <= L over the
-content alphabet is generated (subject to the delimitation constraints below). Token classes are assigned
-by the reference automaton (ref_classify): B = must be visible exactly once and in order, X = must not
-appear, Z = don't care (behaviour not settled by the statement, e.g. text after a nested same-name close).
-Formats: html (read_html), mhtml x {7bit, quoted-printable, base64}, epub chapter, msg-style body
-(_html_to_text).
+Space I over parser event sequences. Three exhaustive families; every case is rendered to real markup and run through
+the real extractors. Token classes: B = must be visible exactly once and in order, X = must not appear, Z = don't care.
+
+Family "seq" (a case without "fam": {"r", "ctx", "seq"[, "spell"][, "cform"]}): the document is
+context( V1 <!--X--> <r> seq </r> V2 ) V3  and every sequence of length <= L over the content alphabet SIGMA is
+generated (subject to the delimitation constraints of valid()). Classes are assigned by the reference automaton
+(ref_classify; text after a nested same-name close is Z). "cform" selects the spelling of every comment in the document
+(CFORMS: one line, multi-line, Office conditional comment, downlevel-revealed pair, comment holding the element's own
+tags); non-plain spellings are generated for every sequence of length <= 1 and every longer sequence (<= Lc) with a
+comment symbol. Formats: html (read_html), mhtml x {7bit, quoted-printable, base64}, epub chapter, epubseq (three
+chapters, the first ends inside an unterminated element), msg-style body (_html_to_text).
+
+Family "cm" (comment forms, {"fam": "cm", "lay", "frame", "k": [slot, slot]}): V0 K1 V1 K2 V2 - two removable
+constructs with visible text before, between and after. A slot is a comment `<!--c-->`, a markup declaration `<!c>`
+(bogus comment: `<![if c]>`, `<![endif]>`, `<!tok>`, `<![x]>`) or a raw-text element `<script|style>c</..>`; c ranges over EVERY
+sequence over the comment-content alphabet KAPPA (token, `[if c]>`, `<![endif]`, `<!`, `<!--`, `>`, `<p>`, `</p>`,
+`<script>`, `</script>`, newline, `--`; for raw text also the closing half `-->`) within the length bounds, restricted
+to contents whose end is unambiguous in the HTML standard and in html.parser (valid_comment). The pair matters: any
+shortcut that pairs a marker of one construct with a marker of a later one (e.g. `<!--[if ..]>` with the next
+`<![endif]-->`) deletes the visible text between them. Layouts: blk (own paragraphs), inl (inside one paragraph), nest
+(div/span); frames: page (bare page) and office (Word/Outlook head with its own conditional comment and
+comment-wrapped style sheet). Formats: html, msgbody, epub (XML-safe subset), mhtml.
+
+Family "wrap" (container layouts, fmt "mhtml-tree", {"fam": "wrap", "shape", "enc", "hdr", "eol", "r", "seq"}): a
+multi-line page  V0 V1 <removed> V2 V3  inside every MIME tree of c17_wrap (6 shapes: single part, flat related, root
+named by start=, related>alternative, alternative>related, mixed>related) x 4 transfer encodings x 2 header orders
+x 2 line terminators. The removed construct (comment, script, style, noscript, object) holds every sequence over the
+LINE alphabet LAMBDA: newline, token, `--`, `--=_b` (line that looks like a MIME delimiter), a Content-Type and a
+Content-Transfer-Encoding look-alike line, a line longer than 76 columns (soft line break lands in the token). The
+container framing is line based; nothing inside removed markup may be mistaken for it, whatever the tree looks like.
+Every container is read back with the stdlib e-mail parser once per run (writer check, harness error if it disagrees).
+
+Bounds (quick / thorough): seq L = 3 / 5 (html), 2 / 3 (wrappers), Lc = 2 / 3; cm: slot contents of length <= 1 for all
+39 x 39 slot pairs x 3 layouts, comment-comment pairs of total length <= 3 / 4 (layout blk), office frame for total
+length <= 2 / 3; wrap: all 96 containers x 5 constructs x sequences of length <= 1 / 3, plus length 2 for the 24
+containers with CRLF and Content-Type first (quick).
 """
 from __future__ import annotations
 
@@ -14,10 +43,12 @@ import io
 import itertools
 import os
 import random
+import re
 
 from verif.gen import htmlfam
 from verif.gen.tokens import Tokens, find_tokens
 from verif.mc import pool as P
+from verif.props import c17_wrap as W
 
 LEVEL = "model_checking"
 REMOVABLE = ["script", "style", "noscript", "iframe", "object", "embed", "applet"]
@@ -27,7 +58,21 @@ CONTEXTS = ["body", "div", "td", "li", "sib"]     # sib: the removed element fol
 SIGMA = ["<p>", "</p>", "<span>", "</span>", "<td>", "</td>", "<img>", "<img/>", "<br>", "<br/>",
          "<n1>", "</n1>", "<n2>", "</n2>", "<r>", "</r>", "T", "C", "D"]
 SIGMA_EXTRA_VOID = ["<input>", "<param>", "<source>", "<hr>", "<wbr>"]
-FORMATS_ALL = ["html", "msgbody", "epub", "epubseq", "mhtml-qp", "mhtml-7bit", "mhtml-b64"]
+FORMATS_ALL = ["html", "msgbody", "epub", "epubseq", "mhtml-qp", "mhtml-7bit", "mhtml-b64", "mhtml-tree"]
+# spellings of a comment (family "seq", key "cform")
+CFORMS = ["plain", "ml", "cond", "rev", "tag"]
+# family "cm": comment-content alphabet
+KAPPA = ["T", "[if", "endif]", "<!", "<!--", ">", "<p>", "</p>", "<script>", "</script>", "\n", "--"]
+KAPPA_XML = [x for x in KAPPA if x not in ("<!--", "--")]            # XML comments must not contain "--"
+KAPPA_RAW = ["T", "[if", "endif]", "<!--", "-->", ">", "<p>", "</p>", "\n", "--"]   # raw text: no script/style tags
+KAPPA_TEXT = {"[if": "[if c]>", "endif]": "<![endif]"}
+DECLS = ["[if c]", "[endif]", "T", "[x]"]    # `<![x]>`: marked section with an unknown keyword (bogus comment)
+CM_LAYS = ["blk", "inl", "nest"]
+CM_FRAMES = ["page", "office"]
+# family "wrap": line alphabet of the removed construct
+LAMBDA = ["\n", "T", "--", "--b", "H", "E", "L"]
+LAMBDA_TEXT = {"--b": "--=_b", "H": "Content-Type: text/html", "E": "Content-Transfer-Encoding: base64"}
+WRAP_R = ["cm", "script", "style", "noscript", "object"]
 
 
 def nested_names(r):
@@ -80,9 +125,28 @@ def ref_classify(r, seq):
     return classes
 
 
+def comment(t, form, r, top=False):
+    """One comment around token t in spelling `form`. Inside the element (top=False) everything is hidden anyway; the
+    top-level comment (top=True) only takes spellings in which t is comment content."""
+    if form == "plain":
+        return f"<!--{t}-->"
+    if form == "ml":
+        return f"<!--\n{t}\n-->"
+    if form == "cond" or (form == "rev" and top):
+        return f"<!--[if gte mso 9]>{t}<![endif]-->"
+    if form == "rev":       # downlevel-revealed pair: two complete comments around t
+        return f"<!--[if !mso]><!-->{t}<!--<![endif]-->"
+    if form == "tag":       # a comment that holds tags of the removed element itself
+        if top or r in RAW or r == "iframe":
+            return f"<!--<{r}>{t}-->"
+        return f"<!--</{r}>{t}<{r}>-->"
+    raise ValueError(form)
+
+
 def render_body(case, tk: Tokens, xhtml=False):
     """Returns (body html, visible tokens in order, hidden tokens)."""
     r, ctx, seq = case["r"], case["ctx"], case["seq"]
+    cform = case.get("cform", "plain")
     n1, n2 = nested_names(r)
     v1, v2, v3, v0 = tk.new("B"), tk.new("B"), tk.new("B"), tk.new("B")
     xc = tk.new("X")
@@ -106,7 +170,7 @@ def render_body(case, tk: Tokens, xhtml=False):
                 if s == "T":
                     parts.append(t)
                 elif s == "C":
-                    parts.append(f"<!--{t}-->")
+                    parts.append(comment(t, cform, r))
                 else:
                     parts.append(f"<![CDATA[{t}]]>")
             elif s in ("<r>", "</r>"):
@@ -118,7 +182,8 @@ def render_body(case, tk: Tokens, xhtml=False):
             else:
                 parts.append(s)
         inner = f"<{r}>" + "".join(parts) + f"</{r}>"
-    core = f"{v1} <!--{xc}--> {inner} {v2}"
+    xcm = comment(xc, cform, r, top=True)
+    core = f"{v1} {xcm} {inner} {v2}"
     if ctx == "body":
         body = f"<p>{v0}</p>{core}<p>{v3}</p>"
     elif ctx == "div":
@@ -129,7 +194,7 @@ def render_body(case, tk: Tokens, xhtml=False):
         body = f"<p>{v0}</p><table><tr><td>{core}</td></tr></table><p>{v3}</p>"
     elif ctx == "sib":
         vs = tk.new("B")
-        body = f"<p>{v0}</p><div><span>{v1}</span><!--{xc}-->{inner} {v2} <span>{vs}</span></div><p>{v3}</p>"
+        body = f"<p>{v0}</p><div><span>{v1}</span>{xcm}{inner} {v2} <span>{vs}</span></div><p>{v3}</p>"
         return body, [v0, v1, v2, vs, v3], hidden
     else:
         raise ValueError(ctx)
@@ -137,21 +202,30 @@ def render_body(case, tk: Tokens, xhtml=False):
 
 
 def extract_text(fmt, body):
+    return extract_page(fmt, htmlfam.xhtml_page(body, "t") if fmt == "epub" else htmlfam.html_page(body))
+
+
+def extract_page(fmt, page, container=None):
+    """Text the library extracts from the complete (x)html document `page` wrapped as `fmt`."""
     if fmt == "html":
         from sharepoint2text.parsing.extractors.html_extractor import read_html
-        res = list(read_html(io.BytesIO(htmlfam.html_page(body).encode("utf-8")), "p.html"))
+        res = list(read_html(io.BytesIO(page.encode("utf-8")), "p.html"))
         return "\n".join(r.get_full_text() for r in res)
     if fmt == "msgbody":
         from sharepoint2text.parsing.extractors.mail.msg_email_extractor import _html_to_text
-        return _html_to_text(htmlfam.html_page(body))
+        return _html_to_text(page)
+    if fmt == "mhtml-tree":
+        from sharepoint2text.parsing.extractors.mhtml_extractor import read_mhtml
+        res = list(read_mhtml(io.BytesIO(W.mhtml_tree(page, **container)), "p.mhtml"))
+        return "\n".join(r.get_full_text() for r in res)
     if fmt.startswith("mhtml"):
         from sharepoint2text.parsing.extractors.mhtml_extractor import read_mhtml
         enc = {"qp": "quoted-printable", "7bit": "7bit", "b64": "base64"}[fmt.split("-")[1]]
-        res = list(read_mhtml(io.BytesIO(htmlfam.mhtml(htmlfam.html_page(body), enc)), "p.mhtml"))
+        res = list(read_mhtml(io.BytesIO(htmlfam.mhtml(page, enc)), "p.mhtml"))
         return "\n".join(r.get_full_text() for r in res)
     if fmt == "epub":
         from sharepoint2text.parsing.extractors.epub_extractor import read_epub
-        data = htmlfam.epub([htmlfam.xhtml_page(body, "t")], {"title": "t"})
+        data = htmlfam.epub([page], {"title": "t"})
         res = list(read_epub(io.BytesIO(data), "b.epub"))
         out = []
         for r in res:
@@ -212,18 +286,131 @@ def evaluate_epubseq(case, seed=0):
     return fails, (tuple(v.index(t) for t in vis), len(leaked), len(units))
 
 
+_CEND = re.compile(r"--\s*!?>")
+
+
+def valid_comment(c):
+    """The comment `<!--` c `-->` ends exactly at our terminator for the HTML standard and for html.parser alike: c does
+    not start with `>` / `->` (abrupt closing) and contains no `--` + optional blanks/`!` + `>`."""
+    if c.startswith(">") or c.startswith("->"):
+        return False
+    m = _CEND.search(c + "-->")
+    return m is not None and m.start() == len(c)
+
+
+def slot_text(slot, tk, hidden):
+    """Markup of one removable construct of family "cm"; its tokens are appended to `hidden`."""
+    kind, seq = slot["kind"], slot["seq"]
+    parts = []
+    for s in seq:
+        if s == "T":
+            t = tk.new("X"); hidden.append(t)
+            parts.append(t)
+        else:
+            parts.append(KAPPA_TEXT.get(s, s))
+    c = "".join(parts)
+    if kind == "cm":
+        return f"<!--{c}-->"
+    if kind == "decl":
+        return f"<!{c}>"
+    return f"<{kind}>{c}</{kind}>"
+
+
+def valid_slot(slot):
+    kind, seq = slot["kind"], slot["seq"]
+    if kind == "cm":
+        return valid_comment("".join(KAPPA_TEXT.get(s, "Xbbbbb" if s == "T" else s) for s in seq))
+    if kind == "decl":
+        return len(seq) == 1 and seq[0] in DECLS
+    return kind in RAW and all(s in KAPPA_RAW for s in seq)
+
+
+def render_cm(case, tk: Tokens, xhtml=False):
+    """Family "cm": returns (complete page, visible tokens in order, hidden tokens)."""
+    v0, v1, v2 = tk.new("B"), tk.new("B"), tk.new("B")
+    hidden = []
+    k1 = slot_text(case["k"][0], tk, hidden)
+    k2 = slot_text(case["k"][1], tk, hidden)
+    lay = case["lay"]
+    if lay == "blk":
+        body = f"<p>{v0}</p>{k1}<p>{v1}</p>{k2}<p>{v2}</p>"
+    elif lay == "inl":
+        body = f"<p>{v0} {k1} {v1} {k2} {v2}</p>"
+    elif lay == "nest":
+        body = f"<div>{v0} {k1}<span>{v1}</span>{k2}</div><p>{v2}</p>"
+    else:
+        raise ValueError(lay)
+    frame = case.get("frame", "page")
+    if xhtml:
+        page = htmlfam.xhtml_page(body, "t")
+    elif frame == "page":
+        page = htmlfam.html_page(body)
+    elif frame == "office":
+        h1, h2 = tk.new("X"), tk.new("X")
+        hidden += [h1, h2]
+        page = ('<html xmlns:o="urn:schemas-microsoft-com:office:office">\n<head>\n'
+                '<meta http-equiv="Content-Type" content="text/html; charset=utf-8">\n'
+                f"<!--[if gte mso 9]><xml><o:OfficeDocumentSettings><o:AllowPNG/>{h1}</o:OfficeDocumentSettings></xml><![endif]-->\n"
+                f"<style><!--\n p {{margin:0}} .{h2} {{color:red}}\n--></style>\n</head>\n<body>\n{body}\n</body>\n</html>\n")
+    else:
+        raise ValueError(frame)
+    return page, [v0, v1, v2], hidden
+
+
+def render_wrap(case, tk: Tokens):
+    """Family "wrap": multi-line page with one removed construct whose content is a sequence of line fragments."""
+    v = [tk.new("B") for _ in range(4)]
+    hidden = []
+    parts = []
+    for s in case["seq"]:
+        if s == "T":
+            t = tk.new("X"); hidden.append(t)
+            parts.append(t)
+        elif s == "L":
+            t = tk.new("X"); hidden.append(t)
+            parts.append("a" * 72 + t + "e" * 8)      # > 76 columns: the quoted-printable soft break lands inside t
+        else:
+            parts.append(LAMBDA_TEXT.get(s, s))
+    c = "".join(parts)
+    r = case["r"]
+    k = f"<!--{c}-->" if r == "cm" else f"<{r}>{c}</{r}>"
+    page = ('<!DOCTYPE html>\n<html>\n<head>\n<meta charset="utf-8">\n</head>\n<body>\n'
+            f"<p>{v[0]}</p>\n<p>{v[1]}</p>\n{k}\n<p>{v[2]}</p>\n<p>{v[3]}</p>\n</body>\n</html>\n")
+    return page, v, hidden
+
+
+def container_of(case):
+    return {d: case[d] for d in ("shape", "enc", "hdr", "eol")}
+
+
+def render_case(fmt, case, tk):
+    """(document handed to the wrapper, visible, hidden) for any family."""
+    fam = case.get("fam")
+    if fam == "cm":
+        return render_cm(case, tk, xhtml=(fmt == "epub"))
+    if fam == "wrap":
+        return render_wrap(case, tk)
+    body, visible, hidden = render_body(case, tk, xhtml=(fmt == "epub"))
+    return (htmlfam.xhtml_page(body, "t") if fmt == "epub" else htmlfam.html_page(body)), visible, hidden
+
+
 def evaluate(fmt, case, seed=0):
     if fmt == "epubseq":
         return evaluate_epubseq(case, seed)
     tk = Tokens(seed)
-    body, visible, hidden = render_body(case, tk, xhtml=(fmt == "epub"))
+    body, visible, hidden = render_case(fmt, case, tk)
     try:
-        text = extract_text(fmt, body)
+        text = extract_page(fmt, body, container_of(case) if case.get("fam") == "wrap" else None)
     except Exception as e:  # noqa
         return [("raises", f"{type(e).__name__}: {e}")], None
     found = find_tokens(text)
     fails = []
     leaked = [t for t in found if t in hidden]
+    if fmt == "msgbody" and "<body>" in text:
+        # the converter gave up and handed the markup back: every removed construct (comments included) is in the text.
+        # One clause for this, whatever happens to be inside the constructs.
+        fails.append(("unparsed", f"the HTML body comes back as raw markup, removed constructs included: text {text!r}"))
+        return fails, ("unparsed",)
     if leaked:
         fails.append(("leak", f"removed content {leaked} appears in text {text!r} for body {body!r}"))
     vis_found = [t for t in found if t in visible]
@@ -243,7 +430,54 @@ def reexec(fmt, case):
     return evaluate(fmt, case, int(os.environ.get("VERIF_SEED", "0")))[0]
 
 
+def _sub(small, big):
+    it = iter(big)
+    return all(any(s == b for b in it) for s in small)
+
+
 def shrinks(case):
+    fam = case.get("fam")
+    if fam == "cm":
+        for i in (0, 1):
+            sl = case["k"][i]
+            for j in range(len(sl["seq"])):
+                c = dict(case)
+                c["k"] = list(case["k"])
+                c["k"][i] = {"kind": sl["kind"], "seq": sl["seq"][:j] + sl["seq"][j + 1:]}
+                if valid_slot(c["k"][i]):
+                    yield c
+            if sl["kind"] != "cm" or sl["seq"]:
+                c = dict(case)
+                c["k"] = list(case["k"])
+                c["k"][i] = {"kind": "cm", "seq": []}
+                yield c
+            if sl["kind"] != "cm" and valid_slot({"kind": "cm", "seq": sl["seq"]}):
+                c = dict(case)
+                c["k"] = list(case["k"])
+                c["k"][i] = {"kind": "cm", "seq": sl["seq"]}
+                yield c
+        for key, dflt in (("frame", "page"), ("lay", "blk")):
+            if case.get(key, dflt) != dflt:
+                c = dict(case)
+                c[key] = dflt
+                yield c
+        return
+    if fam == "wrap":
+        seq = case["seq"]
+        for i in range(len(seq)):
+            c = dict(case)
+            c["seq"] = seq[:i] + seq[i + 1:]
+            yield c
+        for key, dflt in list(W.DEFAULT.items()) + [("r", "cm")]:
+            if case[key] != dflt:
+                c = dict(case)
+                c[key] = dflt
+                yield c
+        return
+    if case.get("cform", "plain") != "plain":
+        c = dict(case)
+        c.pop("cform")
+        yield c
     seq = case["seq"]
     for i in range(len(seq)):
         c = dict(case)
@@ -257,7 +491,19 @@ def shrinks(case):
 
 
 def embeds(small, big):
+    if small.get("fam") != big.get("fam"):
+        return False
+    if small.get("fam") == "cm":
+        if small.get("frame", "page") not in ("page", big.get("frame", "page")) or small["lay"] not in ("blk", big["lay"]):
+            return False
+        return all(a["kind"] == b["kind"] and _sub(a["seq"], b["seq"]) for a, b in zip(small["k"], big["k"]))
+    if small.get("fam") == "wrap":
+        if (small["r"] != big["r"] and small["seq"]) or any(small[d] not in (W.DEFAULT[d], big[d]) for d in W.DEFAULT):
+            return False      # an empty construct stands for every construct
+        return _sub(small["seq"], big["seq"])
     if small["r"] != big["r"] or small.get("spell", "pair") != big.get("spell", "pair"):
+        return False
+    if small.get("cform", "plain") not in ("plain", big.get("cform", "plain")):
         return False
     if small["ctx"] != "body" and small["ctx"] != big["ctx"]:
         return False
@@ -265,9 +511,81 @@ def embeds(small, big):
     return all(any(s == b for b in it) for s in small["seq"])
 
 
+def _seqs(alpha, lo, hi):
+    for n in range(lo, hi + 1):
+        for seq in itertools.product(alpha, repeat=n):
+            yield list(seq)
+
+
+def cm_slots(fmt, n):
+    """All valid slots with content length <= n (comments), <= min(n, 1) (declarations, raw text)."""
+    if fmt == "epub":     # well-formed XHTML only: comments without "--", no SGML declarations, no markup in raw text
+        return [{"kind": "cm", "seq": q} for q in _seqs(KAPPA_XML, 0, n) if valid_slot({"kind": "cm", "seq": q})]
+    out = [{"kind": "cm", "seq": q} for q in _seqs(KAPPA, 0, n) if valid_slot({"kind": "cm", "seq": q})]
+    out += [{"kind": "decl", "seq": [d]} for d in DECLS]
+    for r in ("script", "style"):
+        out += [{"kind": r, "seq": q} for q in _seqs(KAPPA_RAW, 0, min(n, 1))]
+    return out
+
+
+def cases_cm(tier, fmt):
+    """Family "cm" for one format."""
+    quick = tier == "quick"
+    total = 3 if quick else 4          # comment-comment pairs: total content length
+    each = 2 if quick else 3           # ... and length of each
+    ftotal = 2 if quick else 3         # office frame
+    small = cm_slots(fmt, 1)
+    for a in small:
+        for b in small:
+            for lay in CM_LAYS:
+                yield {"fam": "cm", "lay": lay, "frame": "page", "k": [a, b]}
+    big = [x for x in cm_slots(fmt, each) if x["kind"] == "cm"]
+    for a in big:
+        for b in big:
+            la, lb = len(a["seq"]), len(b["seq"])
+            if la + lb <= total and max(la, lb) >= 2:
+                yield {"fam": "cm", "lay": "blk", "frame": "page", "k": [a, b]}
+    if fmt != "epub":
+        allk = cm_slots(fmt, each)
+        for a in allk:
+            for b in allk:
+                if len(a["seq"]) + len(b["seq"]) <= ftotal:
+                    yield {"fam": "cm", "lay": "blk", "frame": "office", "k": [a, b]}
+
+
+def cases_wrap(tier):
+    """Family "wrap" (format mhtml-tree)."""
+    quick = tier == "quick"
+    for cont in W.containers():
+        plain = cont["eol"] == W.DEFAULT["eol"] and cont["hdr"] == W.DEFAULT["hdr"]
+        hi = 3 if not quick else (2 if plain else 1)
+        for r in WRAP_R:
+            for seq in _seqs(LAMBDA, 0, hi):
+                yield dict(cont, fam="wrap", r=r, seq=seq)
+
+
+def cases_cform(tier, fmt, ctxs):
+    """Family "seq" with non-plain comment spellings."""
+    quick = tier == "quick"
+    lc = 2 if quick else 3
+    for r in REMOVABLE:
+        for cform in CFORMS[1:]:
+            if r == "embed":
+                for sp in ("open", "self", "pair"):
+                    yield {"r": r, "ctx": "body", "seq": [], "spell": sp, "cform": cform}
+                continue
+            for seq in _seqs(SIGMA, 0, lc):
+                if (len(seq) <= 1 or "C" in seq) and valid(r, seq):
+                    for ctx in (ctxs if len(seq) <= 1 else ["body"]):
+                        yield {"r": r, "ctx": ctx, "seq": seq, "cform": cform}
+
+
 def cases_for(tier, fmt):
     """Yield cases for one format."""
     quick = tier == "quick"
+    if fmt == "mhtml-tree":
+        yield from cases_wrap(tier)
+        return
     if fmt == "epubseq":
         for r in REMOVABLE:
             if r == "embed":
@@ -313,6 +631,10 @@ def cases_for(tier, fmt):
                 for seq in ([v], [v, other], [other, v]) if other else ([v],):
                     if other is None or valid(r, seq):
                         yield {"r": r, "ctx": "body", "seq": [s for s in seq if s]}
+    yield from cases_cform(tier, fmt, ctxs)
+    if quick and fmt in ("mhtml-7bit", "mhtml-b64"):
+        return      # quick: comment forms go through one MHTML encoding (all three in thorough)
+    yield from cases_cm(tier, fmt)
 
 
 def _part(arg):
@@ -322,25 +644,28 @@ def _part(arg):
     fails = []
     outcomes = {}
     samples = []
+    fams = {}
     for i, case in enumerate(cases_for(tier, fmt)):
         if i % n != k:
             continue
         f, oc = evaluate(fmt, case, seed)
         ev += 1
-        trans += len(case["seq"]) + 2
+        fam = case.get("fam", "seq") if fmt != "epubseq" else "epubseq"
+        fams[fam] = fams.get(fam, 0) + 1
+        trans += (sum(len(k["seq"]) + 2 for k in case["k"]) if fam == "cm" else len(case["seq"]) + 2)
         outcomes[str(oc)] = outcomes.get(str(oc), 0) + 1
         for clause, msg in f:
             fails.append((clause, fmt, case, msg))
         if ev in (3, 700) and len(samples) < 2:
-            samples.append({"fmt": fmt, "case": case, "body": render_body(case, Tokens(seed))[0] if fmt != "epubseq" else "3 chapters", "outcome": str(oc)})
-    return {"ev": ev, "trans": trans, "fails": fails, "outcomes": outcomes, "samples": samples}
+            samples.append({"fmt": fmt, "case": case, "body": render_case(fmt, case, Tokens(seed))[0] if fmt != "epubseq" else "3 chapters", "outcome": str(oc)})
+    return {"ev": ev, "trans": trans, "fails": fails, "outcomes": outcomes, "samples": samples, "fams": fams}
 
 
 def run(ctx):
     fmts = FORMATS_ALL
     args = []
     for fmt in fmts:
-        n = 32 if fmt in ("html", "epub") else 8
+        n = 32 if fmt in ("html", "epub") else (16 if fmt in ("mhtml-tree", "msgbody", "mhtml-qp") else 8)
         if not ctx.quick and fmt == "html":
             n = 128
         args += [(ctx.tier, fmt, k, n, ctx.seed) for k in range(n)]
@@ -351,7 +676,16 @@ def run(ctx):
     outcomes = {}
     samples = []
     per_fmt = {}
+    per_fam = {}
     herr = []
+    # writer check: every container layout is read back by the stdlib e-mail parser (independent of the library)
+    tk = Tokens(ctx.seed)
+    for r in WRAP_R:
+        probe = render_wrap({"r": r, "seq": ["\n", "--", "\n", "--b", "\n", "H", "\n", "\n", "E", "\n", "L", "\n"]}, tk)[0]
+        for cont in W.containers():
+            probs = W.validate(W.mhtml_tree(probe, **cont), probe)
+            if probs:
+                herr.append(f"c17_wrap writer: container {cont} with <{r}>: {probs}")
     for (st, r, _), a in zip(res, args):
         if st != "done":
             herr.append(f"partition {a} failed: {st}: {str(r)[-600:]}")
@@ -359,6 +693,8 @@ def run(ctx):
         ev += r["ev"]
         trans += r["trans"]
         per_fmt[a[1]] = per_fmt.get(a[1], 0) + r["ev"]
+        for k_, v in r["fams"].items():
+            per_fam[k_] = per_fam.get(k_, 0) + v
         fails += [tuple(x) for x in r["fails"]]
         for k_, v in r["outcomes"].items():
             outcomes[k_] = outcomes.get(k_, 0) + v
@@ -366,13 +702,32 @@ def run(ctx):
     samples = sorted(samples, key=lambda s: (s["fmt"], str(s["case"])))[:6]
     cov = {"states": ev, "transitions": trans, "traces_validated_against_impl": ev, "samples": samples,
            "evaluations": ev, "distinct_nontrivial": len(outcomes),
-           "rule": "every delimited event sequence of length <= L over the 19-symbol content alphabet (plus 5 extra void tags at "
-                   "length <= 2), for each of 7 removable elements x contexts, rendered to real markup and parsed by the real "
-                   "extractors; states = (format, element, context, sequence) executed, transitions = parser events fed; "
-                   "distinct_nontrivial = distinct (visible-token order, leak count) outcomes",
-           "per_format": per_fmt, "outcomes": outcomes, "exhaustive": True,
-           "bounds": {"tier": ctx.tier, "L_html": "3 (quick) / 5 script,noscript; 4 others (thorough)", "L_wrappers": "2 (quick) / 3"}}
+           "rule": "seq: every delimited event sequence of length <= L over the 19-symbol content alphabet (plus 5 extra void tags at "
+                   "length <= 2), for each of 7 removable elements x contexts, and 4 further comment spellings for the sequences "
+                   "of length <= 1 and those with a comment symbol up to Lc; cm: every pair of removable constructs (comment / "
+                   "markup declaration / raw-text element) with contents over the 12-symbol comment alphabet around visible "
+                   "text, x layouts x frames; wrap: every MIME tree (6 shapes x 4 encodings x 2 header orders x 2 line "
+                   "terminators) x 5 removed constructs x line sequences over the 7-symbol line alphabet; all rendered to real "
+                   "markup and parsed by the real extractors; states = (format, case) executed, transitions = parser events "
+                   "fed; distinct_nontrivial = distinct (visible-token order, leak count) outcomes",
+           "per_format": per_fmt, "per_family": per_fam, "outcomes": outcomes, "exhaustive": True,
+           "bounds": {"tier": ctx.tier, "L_html": "3 (quick) / 5 script,noscript; 4 others (thorough)", "L_wrappers": "2 (quick) / 3",
+                      "Lc_comment_spellings": "2 (quick) / 3", "comment_spellings": CFORMS,
+                      "cm_alphabet": KAPPA, "cm_raw_alphabet": KAPPA_RAW, "cm_declarations": DECLS, "cm_layouts": CM_LAYS,
+                      "cm_frames": CM_FRAMES,
+                      "cm_bounds": "all pairs of slots with content length <= 1 x 3 layouts; comment-comment pairs with each <= 2 (3) "
+                                   "and total <= 3 (4), layout blk; office frame for total <= 2 (3); quick: html, msgbody, epub "
+                                   "(XML-safe subset), mhtml-qp; thorough: also mhtml-7bit, mhtml-b64",
+                      "wrap_alphabet": LAMBDA, "wrap_constructs": WRAP_R,
+                      "wrap_containers": {"shapes": W.SHAPES, "enc": W.ENCS, "hdr": W.HDRS, "eol": ["CRLF", "LF"]},
+                      "wrap_bounds": "sequences of length <= 1 for all 96 containers, length 2 for the 24 with CRLF and "
+                                     "Content-Type first (quick); length <= 3 for all 96 (thorough)"}}
     return {"coverage": cov, "failures": fails, "harness_errors": herr,
             "assumptions": ["reference automaton: content hidden until the matching close of the same element name; raw-text "
                             "elements end at their first end tag; text after a nested same-name close inside the element is "
-                            "don't-care (class Z)", "self-closed non-void removable elements only generated for XHTML (EPUB)"]}
+                            "don't-care (class Z)", "self-closed non-void removable elements only generated for XHTML (EPUB)",
+                            "comment contents are restricted to those whose end is the same for the HTML standard and html.parser "
+                            "(no leading '>' or '->', no '--' + blanks/'!' + '>'); `<!x>` / `<![if x]>` declarations are (bogus) "
+                            "comments; a raw-text element ends at its first end tag even after an unclosed '<!--'",
+                            "MHTML containers hold exactly one text/html part (the root); frames saved as further text/html "
+                            "parts are not generated"]}
